@@ -4,6 +4,7 @@
    evaluation of 4.4 (EVAL_M).  Interface: elements are 8 octets, most significant first.
    Internally an element is four 16-bit limbs <<l1,l2,l3,l4>> (TLC integers are 32-bit signed). *)
 EXTENDS CryptoBits
+LOCAL INSTANCE SequencesExt       \* FoldLeft
 Z8 == Zeros(8)
 Limbs(v) == <<v[1] * 256 + v[2], v[3] * 256 + v[4], v[5] * 256 + v[6], v[7] * 256 + v[8]>>
 Octets(l) == <<l[1] \div 256, l[1] % 256, l[2] \div 256, l[2] % 256, l[3] \div 256, l[3] % 256, l[4] \div 256, l[4] % 256>>
@@ -31,7 +32,7 @@ Mul64Def(v, p) == LET R[i \in 0..64] == IF i = 0 THEN Z8
 \* j-th 64-bit block (0-based) of a message of nbits bits, zero padded
 Block(msg, nbits, j) == SubSeq([i \in 1..8 |-> IF 8*j + i <= NBytes(nbits) THEN msg[8*j + i] ELSE 0], 1, 8)
 \* EVAL_M: ev := (ev xor M_j) * P over the n blocks
-RECURSIVE EvalL(_,_,_,_,_,_)
-EvalL(msg, nbits, P, j, n, ev) == IF j = n THEN ev ELSE EvalL(msg, nbits, P, j + 1, n, MulL(XorL(ev, Limbs(Block(msg, nbits, j))), P))
-EvalBlocks(msg, nbits, P, j, n, ev) == Octets(EvalL(msg, nbits, Limbs(P), j, n, Limbs(ev)))
+EvalBlocks(msg, nbits, P, j, n, ev) ==
+  LET p == Limbs(P) IN
+  Octets(FoldLeft(LAMBDA a, t : MulL(XorL(a, Limbs(Block(msg, nbits, j + t - 1))), p), Limbs(ev), Idx(n - j)))
 =============================================================================
